@@ -93,6 +93,7 @@ structure Def where
   idText : BStr                     -- the id as written (hex, possibly fewer than 8 digits)
   params : List Param
   result : BStr
+  resultTy : STy                    -- the result type parsed (`Bool`, `Vector<t>`, a boxed type)
   isFunc : Bool
   raw : BStr                        -- the source line, whitespace-normalised, without the `;`
   deriving Repr
